@@ -33,8 +33,8 @@ RULE = (
     "quantity{frequency_moment(0..4), m0, m1, m2, hm0, tm01, tm02 (+ the three default-band properties)}; words = all "
     "{0,1,3,NaN}^nf for nf<=6, impulses/pairs/single-NaN placements for larger grids; bands = all ordered pairs of "
     "{-1,0,nodes,mid-points,nextafter(node,+-inf),+inf}. Named restrictions: layout () evaluates one band per distinct "
-    "in-band node set (quick tier: words over {0,1,NaN} for 1d, impulses/pairs/single-NaN words for 2d and nf>=6); the scaling/negation/additivity laws use one band "
-    "per distinct in-band node set in the quick tier. A case (grid, word, in-band node set, power) is non-trivial when "
+    "in-band node set on a reduced word set (quick: impulses / pairs / ones-with-one-NaN; thorough: all words for 1d nf<=5, {0,1,NaN}^nf or the sparse set otherwise); the additivity law uses one band per distinct in-band node set; the scaling/negation laws do "
+    "too, except in the thorough tier for nf<=5 (1d, 2d:d4), where they run on every band. A case (grid, word, in-band node set, power) is non-trivial when "
     "the band holds >= 2 nodes and the in-band energy is > 0; distinct cases are counted once (1d, time layout)."
 )
 ASSUMPTIONS = [
@@ -322,45 +322,58 @@ def cmp(agg, name, lib, ref, band, words, where=None, rtol=RTOL, atol=0.0):
 # units
 # ------------------------------------------------------------------------------------------
 def units(tier):
+    """cost = rough CPU seconds (only used to schedule the big units first)."""
     us = []
     for g, f in grids(tier).items():
         nf = len(f)
         nb = len(band_values(f)) ** 2
+        nmask = nf * (nf + 1) // 2 + 1
         for kind in kinds(tier):
             w2 = 2.5 if kind != "1d" else 1.0
+            lawf = 4.0 if laws_on_all_bands(tier, nf, kind) else 1.0
             for layout in LAYOUTS:
                 us.append({"name": f"{g}:{kind}:{layout}", "grid": g, "kind": kind, "layout": layout,
-                           "cost": nb * w2 * (1 + nf / 5)})
+                           "cost": round(nb * w2 * lawf * 0.03 * max(1.0, len(words_for(nf)) / 1024) ** 0.5, 1)})
             nw = len(scalar_words(nf, tier, kind))
-            nmask = nf * (nf + 1) // 2 + 1
-            nch = max(1, int(round(nw * nmask * w2 / 1500)))
+            sec = nw * nmask * 0.0185 * w2
+            nch = max(1, int(math.ceil(sec / 60.0)))
             for ch in range(nch):
                 us.append({"name": f"{g}:{kind}:scalar:{ch}of{nch}", "grid": g, "kind": kind, "layout": "scalar",
-                           "chunk": ch, "nchunks": nch, "cost": nw * nmask * w2 * 12 / nch})
+                           "chunk": ch, "nchunks": nch, "cost": round(sec / nch, 1)})
     return us
+
+
+def laws_on_all_bands(tier, nf, kind):
+    return tier == "thorough" and nf <= 5 and kind in ("1d", "2d:d4")
+
+
+def _sparse_scalar(nf):
+    out = []
+    for i in range(nf):
+        w = [0.0] * nf
+        w[i] = 1.0
+        out.append(tuple(w))
+    for i in range(nf):
+        for j in range(i + 1, nf):
+            w = [0.0] * nf
+            w[i], w[j] = 1.0, 3.0
+            out.append(tuple(w))
+    for i in range(nf):
+        w = [1.0] * nf
+        w[i] = None
+        out.append(tuple(w))
+    return out
 
 
 def scalar_words(nf, tier, kind="1d"):
     """Words evaluated one spectrum object at a time (layout ())."""
-    if nf > 6 or (nf == 6 and tier == "quick") or (nf >= 5 and tier == "quick" and kind != "1d"):
-        out = []
-        for i in range(nf):
-            w = [0.0] * nf
-            w[i] = 1.0
-            out.append(tuple(w))
-        for i in range(nf):
-            for j in range(i + 1, nf):
-                w = [0.0] * nf
-                w[i], w[j] = 1.0, 3.0
-                out.append(tuple(w))
-        for i in range(nf):
-            w = [1.0] * nf
-            w[i] = None
-            out.append(tuple(w))
-        return out
-    if nf >= 5 and (tier == "quick" or nf == 6):
-        return list(itertools.product((0.0, 1.0, None), repeat=nf))
-    return list(itertools.product(LETTERS, repeat=nf))
+    if nf <= 2:
+        return list(itertools.product(LETTERS, repeat=nf))
+    if tier == "quick" or nf > 6:
+        return _sparse_scalar(nf)
+    if nf <= 5:
+        return list(itertools.product(LETTERS if kind == "1d" else (0.0, 1.0, None), repeat=nf))
+    return list(itertools.product((0.0, 1.0, None), repeat=nf)) if kind == "1d" else _sparse_scalar(nf)
 
 
 # ------------------------------------------------------------------------------------------
@@ -468,7 +481,7 @@ def run_batched(unit):
         variants.append((-1.0, "negation (__neg__)", -s))
     except Exception:
         agg.add("raises:__neg__", n, "__neg__ raised", traceback=traceback.format_exc()[-1500:])
-    law_bands = set(bands if tier == "thorough" else rbands)
+    law_bands = set(bands if laws_on_all_bands(tier, nf, kind) else rbands)
 
     # ---- every band against the reference --------------------------------------------------
     for band in bands:
